@@ -471,6 +471,26 @@ func main() {
 				{"NewControlWriter", func(d io.Writer, st ws.State, op ws.OpCode) *wsutil.ControlWriter {
 					return wsutil.NewControlWriter(d, st, op)
 				}},
+				// the package-level default buffer size is the application's to set; a control
+				// writer's limits are not a function of it
+				{"NewControlWriter/DefaultWriteBuffer=64", func(d io.Writer, st ws.State, op ws.OpCode) *wsutil.ControlWriter {
+					saved := wsutil.DefaultWriteBuffer
+					wsutil.DefaultWriteBuffer = 64
+					defer func() { wsutil.DefaultWriteBuffer = saved }()
+					return wsutil.NewControlWriter(d, st, op)
+				}},
+				{"NewControlWriter/DefaultWriteBuffer=16", func(d io.Writer, st ws.State, op ws.OpCode) *wsutil.ControlWriter {
+					saved := wsutil.DefaultWriteBuffer
+					wsutil.DefaultWriteBuffer = 16
+					defer func() { wsutil.DefaultWriteBuffer = saved }()
+					return wsutil.NewControlWriter(d, st, op)
+				}},
+				{"NewControlWriter/DefaultWriteBuffer=1<<20", func(d io.Writer, st ws.State, op ws.OpCode) *wsutil.ControlWriter {
+					saved := wsutil.DefaultWriteBuffer
+					wsutil.DefaultWriteBuffer = 1 << 20
+					defer func() { wsutil.DefaultWriteBuffer = saved }()
+					return wsutil.NewControlWriter(d, st, op)
+				}},
 				{"NewControlWriterBuffer/exact", func(d io.Writer, st ws.State, op ws.OpCode) *wsutil.ControlWriter {
 					n := 125 + 2
 					if st.ClientSide() {
